@@ -147,6 +147,7 @@ const (
 	siteCall
 	siteGo
 	siteAcquire
+	siteBlock // a potentially blocking channel operation / WaitGroup.Wait (chanops.go)
 )
 
 type site struct {
@@ -1186,6 +1187,9 @@ func (a *analysis) applyCallRest(fi *fnInfo, st relState, ins ssa.Instruction, c
 func (a *analysis) transfer(fi *fnInfo, st relState, ins ssa.Instruction, rec func(site)) relState {
 	switch x := ins.(type) {
 	case *ssa.Call:
+		if rec != nil {
+			a.blockingOps(fi, st, ins, rec)
+		}
 		return a.applyCall(fi, st, x, x.Common(), rec)
 	case *ssa.Defer:
 		st.def = st.def.with(fi.deferIdx[x])
@@ -1210,6 +1214,7 @@ func (a *analysis) transfer(fi *fnInfo, st relState, ins ssa.Instruction, rec fu
 	}
 	if rec != nil {
 		a.accesses(fi, st, ins, rec)
+		a.blockingOps(fi, st, ins, rec)
 	}
 	return st
 }
@@ -2424,6 +2429,7 @@ func main() {
 	accs := map[string]*accessOut{}
 	ords := map[string]*orderOut{}
 	acqs := map[string]*acqOut{}
+	blocks := map[string]*blockOut{}
 	reachedFns := map[*ssa.Function]bool{}
 	unbalanced := map[string]string{}
 	freshCalls := map[string]string{}   // helper methods entered on an unpublished receiver
@@ -2459,6 +2465,18 @@ func main() {
 					}
 				case siteGo:
 					// separate thread: a root of its own (found by findRoots)
+				case siteBlock:
+					if !h.empty() {
+						bo := &blockOut{Root: r.name, Fn: a.fnName(c.fn), Op: s.note, Chan: s.field, Pos: a.posStr(s.pos)}
+						for _, id := range h.elems() {
+							x := lmByID[id]
+							bo.Held = append(bo.Held, x.Lock+":"+coqMode(x.W))
+						}
+						k := fmt.Sprint(bo.Fn, bo.Op, bo.Chan, bo.Pos, bo.Held)
+						if _, ok := blocks[k]; !ok {
+							blocks[k] = bo
+						}
+					}
 				case siteAcquire:
 					{
 						al := lmByID[s.acq]
@@ -2786,6 +2804,12 @@ func main() {
 		fmt.Fprintln(os.Stderr, "locktable: balance:", err)
 		os.Exit(2)
 	}
+	// ---- blocking channel operations under a lock (chanops.go): coq/Gen/LockTableChan.v
+	chn, err := runChanOps(a, verif, blocks)
+	if err != nil {
+		fmt.Fprintln(os.Stderr, "locktable: chanops:", err)
+		os.Exit(2)
+	}
 	// ---- JSON side output
 	var rn []string
 	for _, r := range roots {
@@ -2794,7 +2818,7 @@ func main() {
 	js := map[string]any{"known_keys": known, "accesses": al, "lock_order": ol, "unresolved": unres, "roots": rn,
 		"address_escapes": a.addrEscapes, "atomic_fields": atomicFields, "fresh_receiver_helpers": freshCalls, "fresh_receiver_accesses_skipped": freshSkipped, "functions_reached": len(reachedFns), "functions_total": len(a.order), "guarded_fields": len(guards),
 		"acquisitions": aql, "abstract_locks": a.abstract, "acquisitions_outside_rank_hint": leftOut, "gate_violations": gateViolations, "bbolt_read_transactions_left_out": a.readTxns,
-		"balance": bal}
+		"balance": bal, "blocking_ops": chn}
 	// the side file, and a copy of its own for a tagged run (bin/try-seed, mutant
 	// runs): another check regenerating the shared file meanwhile must not change
 	// what this run's hook reads
@@ -2824,6 +2848,12 @@ func main() {
 	}
 	fmt.Printf("locktable: %d roots, %d/%d functions reached, %d accesses (%d not under their guard), %d order pairs, %d acquisition sites, %d abstract locks, %d unresolved\n",
 		len(roots), len(reachedFns), len(a.order), len(al), bad, len(ol), len(aql), len(absNames), len(unres))
+	fmt.Printf("locktable: blocking operations under a lock: %d sites, %d justified (handover.json), %d not\n", len(chn.Rows), len(chn.Rows)-chn.Unjustified, chn.Unjustified)
+	if verbose {
+		for _, r := range chn.Rows {
+			fmt.Printf("BLOCKING %s %s on %s at %s holding %v (root %s) justified=%v\n", r.Fn, r.Op, r.Chan, r.Pos, r.Held, r.Root, r.Reason != "")
+		}
+	}
 	nlive := 0
 	for _, r := range bal.Rows {
 		if r.Allowed == "" {
